@@ -22,6 +22,7 @@ import (
 	"fmt"
 	"k8s.io/apimachinery/pkg/runtime"
 	"strings"
+	"sync"
 	"time"
 
 	extv1 "k8s.io/apiextensions-apiserver/pkg/apis/apiextensions/v1"
@@ -284,6 +285,10 @@ type Reconciler struct {
 	record event.Recorder
 
 	options apiextensionscontroller.Options
+
+	// The connection secret keys each running XR controller was started with,
+	// by controller name.
+	startedKeys sync.Map
 }
 
 // Reconcile a CompositeResourceDefinition by defining a new kind of composite
@@ -467,6 +472,19 @@ func (r *Reconciler) Reconcile(ctx context.Context, req reconcile.Request) (reco
 			"desired-version", desired.APIVersion)
 	}
 
+	// An XR controller filters the connection details it publishes by the
+	// connection secret keys its XRD had when the controller was started.
+	// Restart the controller if the keys have changed since.
+	keys := strings.Join(d.GetConnectionSecretKeys(), "\x00")
+	if was, ok := r.startedKeys.Load(composite.ControllerName(d.GetName())); ok && was != keys && r.engine.IsRunning(composite.ControllerName(d.GetName())) {
+		if err := r.engine.Stop(ctx, composite.ControllerName(d.GetName())); err != nil {
+			err = errors.Wrap(err, errStopController)
+			r.record.Event(d, event.Warning(reasonEstablishXR, err))
+			return reconcile.Result{}, err
+		}
+		log.Debug("Connection secret keys changed; stopped composite resource controller")
+	}
+
 	if r.engine.IsRunning(composite.ControllerName(d.GetName())) {
 		log.Debug("Composite resource controller is running")
 		d.Status.SetConditions(v1.WatchingComposite())
@@ -528,6 +546,7 @@ func (r *Reconciler) Reconcile(ctx context.Context, req reconcile.Request) (reco
 	}
 
 	log.Debug("Started composite resource controller")
+	r.startedKeys.Store(name, keys)
 
 	d.Status.Controllers.CompositeResourceTypeRef = v1.TypeReferenceTo(d.GetCompositeGroupVersionKind())
 	d.Status.SetConditions(v1.WatchingComposite())
